@@ -129,7 +129,7 @@ def _res_bool(f, *args):
 
 def run_case(op: str, args: list, stdout_encoding: str = "utf-8") -> str:
     """execute one protocol case against the real library; returns the canonical answer string"""
-    a = [materialize(x) for x in args]
+    a = [materialize(x) if not (op == "key" and x is args[0]) else x for x in args]
     with quiet_stdout(stdout_encoding):
         return _run(op, a)
 
@@ -184,7 +184,31 @@ def _run(op: str, a: list) -> str:
             return "E " + classify(e)
         with open(fn, "rb") as f:
             return "B " + f.read().hex()
+    if op == "key":
+        fn, rest = a[0], a[1:]
+        C, P = common.PrivateKey, common.PublicKey
+        table = {"priv_from_bytes": C.from_bytes, "pub_from_bytes": P.from_bytes, "priv_from_hex": C.from_hex, "pub_from_hex": P.from_hex,
+                 "priv_to_bytes": C.to_bytes, "pub_to_bytes": P.to_bytes, "priv_to_hex": C.to_hex, "pub_to_hex": P.to_hex,
+                 "public_of": lambda k: k.public_key(), "priv_equiv": C.is_equivalent_to, "pub_equiv": P.is_equivalent_to}
+        try:
+            r = table[fn](*rest)
+        except Exception as e:  # noqa: BLE001
+            return "E " + classify(e)
+        if fn.endswith("_equiv"):
+            return "T" if r is True else ("F" if r is False else "X non-bool")
+        return "V " + enc_result(r)
     raise ValueError("unknown op " + op)
+
+
+def enc_result(r) -> str:
+    """encode a value returned by the library (key objects by their raw bytes)"""
+    from cryptography.hazmat.primitives import serialization as ser
+
+    if isinstance(r, ed25519.Ed25519PrivateKey):
+        return "P" + r.private_bytes(ser.Encoding.Raw, ser.PrivateFormat.Raw, ser.NoEncryption()).hex()
+    if isinstance(r, ed25519.Ed25519PublicKey):
+        return "K" + r.public_bytes(ser.Encoding.Raw, ser.PublicFormat.Raw).hex()
+    return proto.enc(r)
 
 
 def enc_case(op: str, args: list) -> str:
@@ -193,4 +217,6 @@ def enc_case(op: str, args: list) -> str:
         return f"{op} {args[0]} {proto.enc(args[1])}"
     if op == "parse":
         return "parse " + bytes(args[0]).hex()
+    if op == "key":
+        return f"key {args[0]} " + " ".join(proto.enc(x) for x in args[1:])
     return " ".join([op] + [proto.enc(x) for x in args])
